@@ -110,7 +110,7 @@ func c15Dump(m *Manager, t0 time.Time, nAddrs int) [][]uint64 {
 	return out
 }
 
-func c15RunCase(t *testing.T, rng *c15Rand, nOps int) c15Case {
+func c15RunCase(t *testing.T, rng *c15Rand, nOps int, directed time.Duration) c15Case {
 	t.Helper()
 	res := c15Case{Kind: "unit"}
 	synctest.Test(t, func(t *testing.T) {
@@ -149,6 +149,49 @@ func c15RunCase(t *testing.T, rng *c15Rand, nOps int) c15Case {
 			}
 
 			return rng.u64()
+		}
+		emit := func(op c15Op) {
+			op.Now = now()
+			op.Dump = c15Dump(m, t0, nAddrs)
+			if len(res.Ops) > 0 && fmt.Sprint(op.Dump) == lastDump {
+				op.Dump = nil
+			} else {
+				lastDump = fmt.Sprint(op.Dump)
+			}
+			res.Ops = append(res.Ops, op)
+		}
+		if directed > 0 {
+			// the candidate keeps sending while its challenge is pending; the response comes at
+			// t0+directed: accepted iff directed < 1 s, however recent the candidate's last record
+			const gap = 300 * time.Millisecond
+			a, act := 2+rng.intn(2), 1
+			addr, actAddr := c15AddrOf(a), c15AddrOf(act)
+			sz := uint64(40 + rng.intn(100))
+			m.recordReceived(addr, actAddr, int(sz))
+			emit(c15Op{K: "recv", A: a, Act: act, B: sz})
+			c, ok, err := m.Start(true, addr, actAddr)
+			if err != nil {
+				t.Fatalf("Start: %v", err)
+			}
+			emit(c15Op{K: "start", A: a, Act: act, En: true, Cookie: c15Cookie(c), Res: ok})
+			elapsed := time.Duration(0)
+			for elapsed+gap < directed {
+				time.Sleep(gap)
+				synctest.Wait()
+				elapsed += gap
+				emit(c15Op{K: "purge", A: a, Act: act})
+				m.recordReceived(addr, actAddr, int(sz))
+				emit(c15Op{K: "recv", A: a, Act: act, B: sz})
+			}
+			time.Sleep(directed - elapsed)
+			synctest.Wait()
+			emit(c15Op{K: "purge", A: a, Act: act})
+			r := m.HandleResponse(addr, c)
+			emit(c15Op{K: "resp", A: a, Act: act, Cookie: c15Cookie(c), Res: r})
+			r2 := m.Reserve(addr, actAddr, 10) == nil
+			emit(c15Op{K: "reserve", A: a, Act: act, B: 10, Res: r2})
+
+			return
 		}
 		for i := 0; i < nOps; i++ {
 			if rng.intn(12) == 0 {
@@ -272,8 +315,21 @@ func TestVerifC15Manager(t *testing.T) {
 	if os.Getenv("VERIF_TIER") == "thorough" {
 		n = 12000
 	}
+	write := func(c c15Case) {
+		b, err := json.Marshal(c)
+		if err != nil {
+			t.Fatal(err)
+		}
+		_, _ = f.Write(append(b, '\n'))
+	}
+	for _, at := range []time.Duration{
+		300 * time.Millisecond, 900 * time.Millisecond, time.Second - 1, time.Second, time.Second + 1,
+		1200 * time.Millisecond, 1500 * time.Millisecond, 2500 * time.Millisecond, 5 * time.Second,
+	} {
+		write(c15RunCase(t, rng, 0, at))
+	}
 	for i := 0; i < n; i++ {
-		c := c15RunCase(t, rng, 10+rng.intn(50))
+		c := c15RunCase(t, rng, 10+rng.intn(50), 0)
 		b, err := json.Marshal(c)
 		if err != nil {
 			t.Fatal(err)
